@@ -100,7 +100,8 @@ form("C02", "mulxu_w", "c02::mulxu($S, {mode}, 2)", ["mulxu_w"], timeout=1800)
 form("C02", "divxu_b", "c02::divxu($S, {mode}, 1, 8)", ["divxu_b"])
 form("C02", "divxu_w_divisor4bit", "c02::divxu($S, {mode}, 2, 4)", ["divxu_w"], timeout=1800, note="bound: divisor < 16 (divisor < 256 takes 26 min: thorough tier)")
 form("C02", "divxu_w_divisor8bit", "c02::divxu($S, {mode}, 2, 8)", ["divxu_w"], timeout=3000, tier="thorough", note="bound: divisor < 256")
-form("C02", "divxu_w", "c02::divxu($S, {mode}, 2, 16)", ["divxu_w"], timeout=2400, tier="thorough", note="full width; may exceed the cap (then inconclusive)")
+# (DIVXU.W at full divisor width is not registered: no answer within 30 minutes in three formulations; a harness that
+#  times out would make the thorough command exit 2.  Stated as outside the bound in the evidence.)
 
 
 # MOV
@@ -332,4 +333,5 @@ for v in (0, 1):
     add("C11", f"c11_load_skeleton_v{v}", f"c11::load_skeleton($S, {v}, false)", stubs=(STUB_ELF,), unwind=44, timeout=5400, mem_gb=24, tier="quick" if v == 0 else "thorough")
     add("C12", f"c12_load_skeleton_v{v}", f"c11::load_skeleton($S, {v}, true)", stubs=(STUB_ELF,), unwind=44, timeout=5400, mem_gb=24)
 
+# feasibility probe, not part of any property: ./check PROBE
 add("PROBE", "probe_c14_fold", "c14::probe_fold($S)", stubs=INSTR_STUBS, keep=["trapa"], unwind=6)
